@@ -288,8 +288,12 @@ func main() {
 					prof.UserCursorStyle = 4
 				}
 				for _, sh := range allShapes {
-					if len(sh.Mid) > 0 && !r.Thorough() && i%len(optSets) != oi {
-						continue
+					if len(sh.Mid) > 0 && !r.Thorough() {
+						// quick: one option set per profile (rotating) and, per middle
+						// operation, Close plus one rotating other ending
+						if i%len(optSets) != oi || !(sh.End == endClose || (i+sh.Mid[0])%numEnd == sh.End) {
+							continue
+						}
 					}
 					runSession(prof, o, sh)
 				}
